@@ -52,6 +52,11 @@ CHECKS = {
    text="TLC checks StackEqualsRecursive and PartialOK (the traversal's matrices = product of ancestor transform lists, outermost first), TreeOK and ShapesClosed for every tree up to the node bound; every tree of root + 2 nodes (8 shape kinds x 10 transform lists x both nestings) and simulated trees of up to 7-9 nodes are rendered with ids and each API's result is compared per element id with the model's shape geometry (SVG 1.1 ch. 9) mapped by the model's matrix: Document.paths, paths_from_group for every group (recursive / not, by element / by nested names), svg2paths (identity, by design), SaxDocument.flatten_all_paths.",
    note="Trusted: TLC, xml parsing, the Arc class for reference arcs (C04). Integer attributes, invertible transform lists only; rx/ry never exceed half the rect; circle/ellipse compared as a closed arc outline through the four quadrant points.",
    ref="4 (C17), 3.12"),
+ 'C18': dict(
+   technique="TLA+ state machine of Document histories (SvgHist.tla: add_path / add_group / save / reload from an empty or loaded document) model-checked with TLC; every behaviour replayed on a real Document in a temporary directory; wsvg round trips read back by three readers",
+   text="TLC checks AddedVisible, GroupsClosed, SaveReloadIdentity and FileIsSnapshot over all histories to depth 4 (quick) / 5 (thorough); every behaviour of depth 2, a sample of depth 3 and simulated ones of depth 5-9 are replayed: after each operation paths() and paths_from_group() of every group (recursive and direct, insertion order) and the supplied attributes are compared with the model, every saved file is also read by svg2paths and SaxDocument; wsvg(paths, attributes, svg_attributes) for permutations of a path pool (lines, cubic, arc, quadratic, several subpaths, large and tiny coordinates) is read back by svg2paths2, Document and SaxDocument: same order, equal paths, attributes included.",
+   note="Trusted: TLC, xml libraries, svgwrite. Paths are identified by == with the pool (absolute d round trip, C01). Order across different groups is not prescribed.",
+   ref="4 (C18), 3.12"),
  'C19': dict(
    technique="TLA+ exact lattice algebra (Bezier.tla, degrees 0..8) and state machines of the root de-duplication loop (Roots.tla) and of the L'Hopital recursion (RatLimit.tla) model-checked with TLC; every case replayed into the real helpers in exact Fraction arithmetic / through a numpy.roots proxy; recorded numpy orders validated by Roots_Trace.tla",
    text="TLC checks Bernstein = de Casteljau = Horner, the basis-change round trip, derivative = polynomial derivative and the split re-parameterisation on unisolvent grids for degrees 0..8, SimpleOnce/ClusterRepresented/OnePerCluster for every set partition x kind vector of up to 5 (quick) / 6 (thorough) roots, and the correctness of the limit recursion for all integer polynomial pairs of degree <= 2 at four points; each case is replayed: bezier_point, bezier2polynomial, polynomial2bezier, split_bezier, halve_bezier with Fractions (exact equality), polyroots/polyroots01 with numpy.roots returning exactly the model's ordered list, rational_limit on every (f,g,t0); 300/3000 real polynomials with prescribed root sets are validated as traces.",
